@@ -15,7 +15,7 @@ QEV = ("qnew",)
 
 
 def is_q(e):
-    return e["ev"] == "qnew" or (e["ev"] == "cancel" and e["a"] == "Q")
+    return e["ev"] == "qnew" or (e["ev"] == "cancel" and e["a"] == "Q") or (e["ev"] == "update" and e["a"].startswith("Q"))
 
 
 def scripts(maxenv, timeout=3000):
@@ -75,13 +75,17 @@ def collect(pid, tier, seed, v):
         if tier == "quick":
             # all scripts with at most one environment event, plus a seeded sample of those with two
             def nenv(k):
-                return sum(1 for e in json.loads(k) if e["ev"] in ("new", "cancel", "qnew", "cmdcancel", "pause", "sendfail"))
+                return sum(1 for e in json.loads(k) if e["ev"] in ("new", "cancel", "qnew", "cmdcancel", "pause", "sendfail", "update"))
             base = [k for k in allkeys if nenv(k) <= 1]
             rest = [k for k in allkeys if nenv(k) > 1]
             # scripts that place messages between a worker's pop and the manager's start of the task: the shortest ones always
             popped = sorted((k for k in rest if any(e["at"] == "popped" and e["ev"] != "start" for e in json.loads(k))), key=lambda k: (len(json.loads(k)), k))
+            # ... and scripts that let the final message go out (or fail) before the manager hears that the task is finished
+            finishing = sorted((k for k in rest if any(e["at"] == "finishing" and e["ev"] != "finish" for e in json.loads(k))), key=lambda k: (len(json.loads(k)), k))
+            # ... and scripts with updates from the requestor (handled in the loop for a paused response, by the executor otherwise)
+            updates = sorted((k for k in rest if any(e["ev"] in ("update", "updhook") for e in json.loads(k))), key=lambda k: (len(json.loads(k)), k))
             rng.shuffle(rest)
-            keys = base + popped[:250] + (rest[:1150] if pid != "C21" else [])
+            keys = base + popped[:250] + finishing[:250] + updates[:250] + (rest[:800] if pid != "C21" else [])
         else:
             keys = list(allkeys)
             d3, s3 = scripts(3, timeout=6000)
